@@ -153,7 +153,7 @@ func sendThenEnd(out *scenOut, cause, slow string, idx int) {
 	}
 	switch cause {
 	case "kill":
-		run.p.Kill()
+		killNow(run.p)
 	case "ctx":
 		cancel()
 	case "quit":
@@ -276,7 +276,7 @@ func sendsDuringExec(out *scenOut, end string, procs int) {
 	case <-running:
 	case <-time.After(3 * time.Second):
 		out.fail(finding{Property: "C01", Class: "harness", What: "exec did not start", Input: desc})
-		run.p.Kill()
+		killNow(run.p)
 		return
 	}
 	const n = 48
@@ -297,7 +297,7 @@ func sendsDuringExec(out *scenOut, end string, procs int) {
 			done = 1
 		case <-time.After(3 * time.Second):
 		}
-		run.p.Kill()
+		killNow(run.p)
 	} else {
 		close(release)
 		for done < n {
@@ -306,7 +306,7 @@ func sendsDuringExec(out *scenOut, end string, procs int) {
 				done++
 			case <-time.After(3 * time.Second):
 				out.fail(finding{Property: "C01", Class: "new", What: "Send blocked although the program is running", Input: desc, Observed: fmt.Sprintf("%d of %d sends completed", done, n)})
-				run.p.Kill()
+				killNow(run.p)
 				run.wait(3 * time.Second)
 				return
 			}
@@ -614,7 +614,7 @@ func manyBlocked(out *scenOut, n int) {
 	}
 	run.p.Quit()
 	if !run.wait(3 * time.Second) {
-		run.p.Kill()
+		killNow(run.p)
 		run.wait(3 * time.Second)
 		out.fail(finding{Property: "C02", Class: "new", What: "blocked commands delayed the program's exit", Input: desc})
 	}
@@ -656,7 +656,10 @@ func scratchReuse(out *scenOut, idx int) {
 	go func() { run.p.Send(userMsg{0, 2}); close(second) }()
 	time.Sleep(3 * time.Millisecond) // the second message is waiting in Send when the first Update returns
 	g.open()
-	<-second
+	select {
+	case <-second:
+	case <-time.After(4 * time.Second):
+	}
 	waitFor(2*time.Second, func() bool { return ctl.log.count("update-exit", "c:r") >= 4 })
 	time.Sleep(2 * time.Millisecond)
 	run.p.Quit()
@@ -1652,7 +1655,7 @@ func filterExecResult(out *scenOut, verdict, outcome string) {
 	}
 	run.p.Quit()
 	if !run.wait(3 * time.Second) {
-		run.p.Kill()
+		killNow(run.p)
 		run.wait(3 * time.Second)
 	}
 }
@@ -1763,7 +1766,7 @@ func filterQuitParked(out *scenOut) {
 	go run.p.Send(tea.Quit())
 	if !waitFor(2*time.Second, func() bool { return atomic.LoadInt32(&holding) == 1 }) {
 		close(hold)
-		run.p.Kill()
+		killNow(run.p)
 		run.wait(3 * time.Second)
 		return
 	}
@@ -1776,7 +1779,7 @@ func filterQuitParked(out *scenOut) {
 	out.record("filter-quit-parked", desc)
 	if !run.wait(4 * time.Second) {
 		out.fail(finding{Property: "C04", Class: "new", What: "Run did not return after quit", Input: desc})
-		run.p.Kill()
+		killNow(run.p)
 		run.wait(3 * time.Second)
 		return
 	}
@@ -1839,7 +1842,7 @@ func rawBatchNil(out *scenOut, nested bool) {
 	}
 	run.p.Quit()
 	if !run.wait(3 * time.Second) {
-		run.p.Kill()
+		killNow(run.p)
 		run.wait(3 * time.Second)
 	}
 }
